@@ -52,12 +52,12 @@ def run(ctx):
     )
     run.trusted_base = ["CPython ast", "sa/callgraph.py resolution, sa/forward.py provenance"]
     run.assumptions = ["exceptions CONST_TRUE_OK / UPGRADE_OK are frozen with one reason each"]
-    rule_forward(ctx)
-    rule_no_upgrade(ctx)
-    rule_flag_back(ctx)
-    rule_privileged_keys(ctx)
-    rule_raw_passthrough(ctx)
-    rule_extra_props(ctx)
+    ctx.do(rule_forward)
+    ctx.do(rule_no_upgrade)
+    ctx.do(rule_flag_back)
+    ctx.do(rule_privileged_keys)
+    ctx.do(rule_raw_passthrough)
+    ctx.do(rule_extra_props)
     # "is this referenced type custom?" is a question about one spec version: the registry predicates must be asked with
     # the version of the asking property, or a 2.1-only type counts as a standard reference of a 2.0 object
     from .C14 import rule_version_in_scope
